@@ -107,8 +107,16 @@ package binary
 // The element-wise conversion of a changed fixed vector (`int*3` -> `long*3`) may not print one.
 //@ spec func newVec(tc dsl.TypeChange) dsl.Type = dsl.GetUnderlyingType(tc.(*dsl.TypeChangeVectorTypeChanged).TypePair.New)
 //@ spec func fixedVectorTarget(tc dsl.TypeChange) bool = typeof(newVec(tc)) == *dsl.GeneralizedType && newVec(tc).(*dsl.GeneralizedType) != nil && typeof(newVec(tc).(*dsl.GeneralizedType).Dimensionality) == *dsl.Vector && newVec(tc).(*dsl.GeneralizedType).Dimensionality.(*dsl.Vector) != nil && newVec(tc).(*dsl.GeneralizedType).Dimensionality.(*dsl.Vector).Length != nil
+// docs/cpp/evolution.md, Runtime errors: "Numeric overflow when converting between numbers". An integer is converted to
+// another integer type with a runtime check whenever the old type has values the new type cannot hold: a narrower type,
+// an unsigned type of the same width as a signed one, and ANY unsigned type when the old type is signed (negative
+// values), however wide.
+//@ spec func oldInt(tc dsl.TypeChange) dsl.PrimitiveDefinition = tc.(*dsl.TypeChangeNumberToNumber).TypePair.Old.(*dsl.SimpleType).ResolvedDefinition.(dsl.PrimitiveDefinition)
+//@ spec func newInt(tc dsl.TypeChange) dsl.PrimitiveDefinition = tc.(*dsl.TypeChangeNumberToNumber).TypePair.New.(*dsl.SimpleType).ResolvedDefinition.(dsl.PrimitiveDefinition)
+//@ spec func holdsAll(o dsl.PrimitiveDefinition, n dsl.PrimitiveDefinition) bool = ite(dsl.IsSignedPrimitive(o), dsl.IsSignedPrimitive(n) && dsl.GetPrimitiveWidth(n) >= dsl.GetPrimitiveWidth(o), (!dsl.IsSignedPrimitive(n) && dsl.GetPrimitiveWidth(n) >= dsl.GetPrimitiveWidth(o)) || (dsl.IsSignedPrimitive(n) && dsl.GetPrimitiveWidth(n) > dsl.GetPrimitiveWidth(o)))
 //@ func writeTypeConversion
 //@   property C05,C08
+//@   ensures an_integer_that_may_not_fit_is_checked_at_run_time: typeof(typeChange) == *dsl.TypeChangeNumberToNumber && typeChange.(*dsl.TypeChangeNumberToNumber) != nil && !write && dsl.GetPrimitiveKind(old(oldInt(typeChange))) == dsl.PrimitiveKindInteger && dsl.GetPrimitiveKind(old(newInt(typeChange))) == dsl.PrimitiveKindInteger && !holdsAll(old(oldInt(typeChange)), old(newInt(typeChange))) ==> emittedHere("throw std::runtime_error(\"Numeric overflow detected while converting '%s' to '%s'\");\n") == 1
 //@   ensures a_fixed_vector_is_not_resized: typeof(typeChange) == *dsl.TypeChangeVectorTypeChanged && typeChange.(*dsl.TypeChangeVectorTypeChanged) != nil && !write && old(fixedVectorTarget(typeChange)) ==> emittedHere("%s.resize(%s.size());\n") == 0
 
 // C05: when the element type of a vector (or of a stream batch) changed, the generated reader converts element by
